@@ -133,6 +133,27 @@ def run_known_findings(pid):
     return [f for f in data.get("findings", []) if f["property"] == pid and f.get("status") == "finding"]
 
 
+def supervise(pid, tier, argv):
+    """run the check in a child process under a wall-clock limit: in-process z3 (path feasibility) has been seen once to ignore its timeout and grow without bound
+    on a busy machine; such a run is killed and repeated once, and a second overrun is a checker error (exit 3) - never a verdict"""
+    import subprocess
+    limit = float(os.environ.get("VERIF_WALL_LIMIT_S", "0") or 0) or (2400 if tier == "quick" else 7200)
+    env = dict(os.environ, VERIF_SUPERVISED="1")
+    for attempt in (1, 2):
+        p = subprocess.Popen([sys.executable, "-m", "pyvc.check"] + argv, env=env, cwd=VERIF, start_new_session=True)
+        try:
+            return p.wait(timeout=limit)
+        except subprocess.TimeoutExpired:
+            try:
+                os.killpg(p.pid, 9)
+            except OSError:
+                pass
+            p.wait()
+            print("CHECKER-NOTE property=%s attempt %d exceeded the wall-clock limit of %ds and was killed%s" % (pid, attempt, limit, "; repeating once" if attempt == 1 else ""), flush=True)
+    print("CHECKER-ERROR property=%s no verdict within the wall-clock limit (twice)" % pid)
+    return 3
+
+
 def main(argv=None):
     ap = argparse.ArgumentParser()
     ap.add_argument("pid")
@@ -142,6 +163,8 @@ def main(argv=None):
     ap.add_argument("--verbose", "-v", action="store_true")
     args = ap.parse_args(argv)
     pid = args.pid
+    if not args.replay and os.environ.get("VERIF_SUPERVISED") != "1":
+        return supervise(pid, "thorough" if args.tier == "thorough" else "quick", list(sys.argv[1:] if argv is None else argv))
     seed = int(os.environ.get("VERIF_SEED", "0") or 0)
     tier = "thorough" if args.tier == "thorough" else "quick"
     t_start = time.time()
